@@ -18,9 +18,11 @@ BUDGET = {
     "thorough": {"runs": 200_000, "wall": 1500, "chunk": 100, "minimise": 250},
 }
 REQUIRED_PROBES = {"quick": ("uncatalogued", "malformed_body", "no_w", "user_callback_raises", "user_callback_ok",
-                             "burst", "system_zero", "system_reused", "transport_secsi", "secsi_contention"),
+                             "burst", "system_zero", "system_reused", "transport_secsi", "secsi_contention",
+                             "system_of_timed_out_linktest"),
                    "thorough": ("uncatalogued", "malformed_body", "no_w", "user_callback_raises", "user_callback_ok",
-                                "burst", "system_zero", "system_reused", "transport_secsi", "secsi_contention")}
+                                "burst", "system_zero", "system_reused", "transport_secsi", "secsi_contention",
+                                "system_of_timed_out_linktest")}
 EVIDENCE = {
     "level": "exploration",
     "rule": ("seeded sequences of primaries over the whole stream/function range (catalogued with inherited or "
@@ -94,6 +96,9 @@ def gen_plan(rng, tier, index):
         # the same handlers over the SECS-I transport (the library is the host = contention slave; the scripted peer is
         # the equipment and wins ENQ contention, so replies of the library can collide with the next primary)
         plan["transport"] = "secsi"
+    # an own Linktest.req that the peer left unanswered (T6) before the primaries arrive; a later primary of the peer
+    # carries the same system bytes (both sides number their transactions independently)
+    plan["lt_orphan"] = rng.random() < 0.25
     sched = dict(rng.choice(SCHEDS))
     sched["seed"] = rng.getrandbits(48)
     plan["sched"] = sched
@@ -177,7 +182,28 @@ def run(sim, plan):
     used_systems = set()
     seq = {"n": 0}
 
+    orphan = {}
+    if plan.get("lt_orphan") and not secsi:
+        hp.auto_linktest = False
+        lt_done = {"r": False}
+
+        def _lt():
+            env.proto.send_linktest_req()
+            lt_done["r"] = True
+
+        sim.spawn(_lt, "app_linktest", role="app")
+        if not sim.wait_until(lambda: lt_done["r"], 2.0 + 3):
+            sim.violation("C08.R1", "send_linktest_req() did not return after T6", sig="C08.R1|linktest-stuck")
+        hp.auto_linktest = True
+        lts = [f.system for f in hp.frames if f.stype == rc.LINKTEST_REQ]
+        if lts:
+            orphan["system"] = lts[-1]
+            sim.probe("linktest_unanswered")
+
     def pick_system(kind, salt):
+        if orphan.get("system") is not None and kind in ("seq", "rand") and orphan["system"] not in used_systems:
+            sim.probe("system_of_timed_out_linktest")
+            return orphan.pop("system")
         if kind == "zero" and 0 not in used_systems:
             sim.probe("system_zero")
             return 0
